@@ -33,3 +33,8 @@ def batch_oracles(merged, mode):
         rec = {"statistic": "fair_outcome_ones", "n": n, "ones": ones, "z": z, "threshold_sigma": 6.2}
         out.append(("c06.coin_fairness", z <= 6.2, rec))
     return out
+
+
+# reach guard: a full-size batch in which one of these never fired means the workload or the
+# harness has rotted (exit 2, never a pass)
+REQUIRED_REACH = ['coin_force', 'remeasure', 'resample', 'view_operand', 'pivot:standby_stabilizer', 'pivot:standby_destabilizer', 'rank_reduced_by_measurement', 'deterministic_outcome_minus', 'obs_anticommutes_standby_and_active']
